@@ -57,8 +57,9 @@ func (p *c07Pair) spec(v *c07Variant) *simrt.Spec {
 			{"name": "dup/a.go", "content": "package dup\n\nvar A = 1\n"},
 			{"name": "dup/a.go", "content": big},
 			{"name": "dup/a_1.go", "content": "package dup\n\nvar C = 3\n"},
-			{"name": "dup/notes.txt", "content": "@@thriftgo_insertion_point(x)notes\n"},
-			{"ip": "x", "content": "patched "},
+			{"name": "dup/notes.txt", "content": "@@thriftgo_insertion_point(x)notes@@thriftgo_insertion_point(y)\n"},
+			{"ip": "x", "content": "patched, see @@thriftgo_insertion_point(y) "},
+			{"ip": "y", "content": " end"},
 		}
 		cc.Plugins = []plugSpec{{Name: "rec", Path: "/plug/rec", Opts: "k=v,flag", Script: map[string]interface{}{"decode": true, "out_prefix": "$OUT", "files": files}, Version: p.PlugVer}}
 	}
